@@ -180,6 +180,14 @@ def gen_statement(rng, features, single=None):
         s1 = re.sub(r'^select (distinct )?.*? from', 'select * from', s1, count=1) if ' join ' not in s1 else None
         if s1:
             tail = rng.choice(['', ' where s.b = 1', ' where s.a > 0 order by s.a limit 2', ' order by s.c desc'])
+            if rng.random() < 0.35:
+                # the derived table cuts its rows and takes part in a join that is filtered from outside
+                ig2, t2 = rng.choice(ALL_TABLES)
+                cut = rng.choice([' order by a, b, c limit 2', ' order by c desc, a, b limit 3', ' order by a, b, c limit 2 offset 1'])
+                flt = rng.choice(['s.b = 1', 's.a > 1', f's.c = 0 and {t2}.b > 0', 's.b in (0, 1)'])
+                if ' where ' in s1 or ' order by ' in s1 or ' limit ' in s1:
+                    return f'select s.a, s.c from ({s1}) as s{tail}'
+                return f'select * from ({s1}{cut}) as s join {ig2}.{t2} on s.a = {t2}.a where {flt}'
             return f'select s.a, s.c from ({s1}) as s{tail}'
     return gen_select(rng, features, single)
 
@@ -213,6 +221,13 @@ EDGE = [
     "with x as (select * from int1.t1), y as (select * from int2.t2) select * from x", "with x as (select * from int1.t1), y as (select * from int2.t2) select * from y",
     "with x as (select * from int1.t1), y as (select * from int2.t2) select * from (select * from x) as s",
     "with x as (select a from int1.t1), y as (select a from int2.t2) select * from x union select * from y",
+    # derived tables that cut their rows (LIMIT / OFFSET / DISTINCT / GROUP BY) joined and filtered from outside: the filter does not commute
+    "select * from (select * from int1.t1 order by a, b, c limit 2) as s join int2.t2 on s.a = t2.a where s.b = 1",
+    "select * from (select * from int1.t1 order by a, b, c limit 2 offset 1) as s join int2.t2 on s.a = t2.a where s.b > 0 and t2.c = 1",
+    "select * from int2.t2 join (select * from int1.t1 order by c desc, a, b limit 3) as s on s.a = t2.a where s.a = 2",
+    "select * from (select * from int1.t1 order by a, b, c limit 1) as s left join int2.t2 on s.a = t2.a where s.b = 1 or s.b = 2",
+    "select * from (select distinct a from int1.t1) as s join int2.t2 on s.a = t2.a where s.a > 1",
+    "select s.a, t2.b from (select a, count(*) as n from int1.t1 group by a) as s join int2.t2 on s.a = t2.a where s.n = 1",
     "select a from int1.t1 except select a from int2.t2", "select a from int1.t1 except select a from int2.t2 union select a from int3.t3",
     "select a from int1.t1 union select a from int2.t2 except select a from int3.t3", "select a from int1.t1 intersect select a from int2.t2",
     "select a from int1.t1 union all select a from int2.t2 except select a from int1.u1",
@@ -336,9 +351,18 @@ def prepare(sql, cname, cat_kw, rng, ndb, N, plan_fn=None, extra_alts=None):
                 pass
     dbs = []
     # bag semantics of set operations shows only when the same row occurs several times: more, and few-valued, databases
-    for _ in range(ndb * 4 if any(w in sql.lower() for w in (' except ', ' intersect ')) else ndb):
+    # ... and whether a filter commutes with an inner LIMIT shows only when the first rows fail it and later rows pass
+    inner_cut = re.search(r'\(select[^()]* limit \d', sql.lower()) is not None
+    for _ in range(ndb * 8 if inner_cut else (ndb * 4 if any(w in sql.lower() for w in (' except ', ' intersect ')) else ndb)):
         setops = any(w in sql.lower() for w in (' except ', ' intersect ', ' union '))
-        db = sqlcoq.gen_db(rng, ALL_TABLES, COLS, few_values=setops and len(dbs) % 4 != 3)
+        if inner_cut:
+            # full tables of few distinct values: several rows compete for the places the inner LIMIT leaves
+            db = sqlcoq.gen_db(rng, ALL_TABLES, COLS, maxrows=5, few_values=len(dbs) % 2 == 0)
+            for k_, (cols_, rows_) in list(db.items()):
+                while len(rows_) < 4:
+                    rows_.append([rng.randint(0, 2) for _ in cols_])
+        else:
+            db = sqlcoq.gen_db(rng, ALL_TABLES, COLS, few_values=setops and len(dbs) % 4 != 3)
         try:
             lite = sqlite_rows(strip_limit(sql) if lim != 'None' or off != 'None' else sql, db)
             lite_t = rows_term(lite, N)
